@@ -92,8 +92,9 @@ class H3Ops:
                 # There are no entities in any of the rings.
                 return None
             else:
-                # get the kth ring
-                ring = h3.k_ring(search_geoid, current_k)
+                # get the kth ring; h3 returns a set, which we visit in sorted order so that the
+                # "first entity encountered" among equally distant ones does not depend on hashing
+                ring = sorted(h3.k_ring(search_geoid, current_k))
 
                 # get all entities in this ring
                 found = (
